@@ -48,6 +48,18 @@ CLAIMED = {
         "stateful / model-based property testing with time-schedule generation",
         "DESIGN.md §4 C08",
     ),
+    "C09": (
+        "Model-based stateful property testing of the real fee distributor with the real lair and collector: generated histories of epoch creations (on time, 1 ns / hours / a day late), arbitrary fee inflows, claims by single users and by everybody in rotated order, bonds, unbonds, withdrawals and grace-period increases (grace 1..5). After every step every Epoch{id} is read back and checked against the ledger rules: claimed + available == total inside the grace window, the epoch leaving the window is rolled into the new one exactly once (new.total == forwarded + remainder) and then frozen, distributor balance >= sum of available, each claim's payout == sum of claimed increases == sum of available decreases, an address is paid at most once per epoch and never for an epoch that started before its current bonding stint, ids/start times gap-free.",
+        "Distribution asset and epoch configuration fixed within a history. Inflows are plain transfers to the collector (pipeline = C10). Block time owned by the harness.",
+        "stateful / model-based property testing with an epoch-ledger oracle",
+        "DESIGN.md §4 C09",
+    ),
+    "C20": (
+        "Schedule generation against a reference clock: the epoch manager (0..3 logging hook receivers, hooks added/removed mid-history) and the fee distributor are driven by generated block-time schedules (before genesis, exactly at, 1 ns before/after each boundary of either clock, several durations late with jitter) interleaved with creation attempts by arbitrary callers, repeated within a block; durations 1..3 days. Every attempt's acceptance must equal the reference clock's decision; after every step CurrentEpoch of both contracts equals the model, each registered hook logged exactly one call carrying the new epoch per accepted creation, and a rejected attempt leaves the world snapshot unchanged.",
+        "Block time owned by the harness. Hook receivers are harness contracts. The distributor runs with its real collector (empty factories).",
+        "schedule generation (property-based) against a reference clock model",
+        "DESIGN.md §4 C20",
+    ),
     "C02": (
         "Generated-input search (proptest, 16 deterministic shards) over the whole documented domain [1,2^128)^3 x valid fee triples x decimals, judged against an independent exact 1024-bit reference: gross floor, fee floors, strict bound, totality inside the 128-bit domain, there-and-back with the case's fees and with zero fees, gross monotone in the offer. Exploration, not proof: millions of cases per quick run, hundreds of millions thorough, with boundary constants and extreme-ratio shapes weighted in.",
         "Trusts refmath.rs (bnum integers, self-tested at start-up) and that commands::swap / queries::query_simulation call the hooked compute_swap (cross-checked by C14). A panic is an abort.",
